@@ -624,7 +624,7 @@ impl FatVolume {
                         lfn_buffer.push(&buffer);
                         SeqState::Complete { csum }
                     }
-                    (true, sequence, _) if sequence >= 0x02 && sequence < 0x14 => {
+                    (true, sequence, _) if sequence >= 0x02 && sequence <= 0x14 => {
                         lfn_buffer.clear();
                         lfn_buffer.push(&buffer);
                         SeqState::Remaining {
@@ -651,7 +651,7 @@ impl FatVolume {
                             next,
                         },
                     ) if sequence >= 0x01
-                        && sequence < 0x13
+                        && sequence <= 0x13
                         && next == sequence
                         && run_csum == csum =>
                     {
